@@ -14,6 +14,53 @@ STEP_UN = ("pre++", "post++", "pre--", "post--")
 NON_MUTATING = {"begin", "end", "rbegin", "rend", "cbegin", "cend", "front", "back", "at", "data", "find", "count", "lower_bound", "upper_bound", "equal_range", "size", "empty", "valid", "is_valid"}
 
 
+def ceq(a, b, op="=="):
+    """canonical rendering of the symmetric comparison a op b"""
+    a, b = sorted((a, b))
+    return "(%s %s %s)" % (a, op, b)
+
+
+def split_eq(s):
+    """(op, a, b) when the canonical string s is a top-level comparison '(a == b)' / '(a != b)', else None"""
+    if not (s.startswith("(") and s.endswith(")")):
+        return None
+    depth = 0
+    for i, ch in enumerate(s):
+        if ch in "([":
+            depth += 1
+        elif ch in ")]":
+            depth -= 1
+            if depth == 0 and i != len(s) - 1:
+                return None
+        elif depth == 1 and ch == " ":
+            for op in ("==", "!="):
+                if s.startswith(" %s " % op, i):
+                    return op, s[1:i], s[i + len(op) + 2:-1]
+    return None
+
+
+def eq_match(s, op, pat_a, pat_b, pol=None, want=None):
+    """match objects (ma, mb) when s is '(x op y)' with one operand fully matching regex pat_a and the other pat_b (either order);
+    with pol/want given, `op` is taken under that polarity: ('==', True) also accepts ('!=', False)"""
+    import re as _re
+    r = split_eq(s)
+    if not r:
+        return None
+    sop, a, b = r
+    if want is not None and pol is not None:
+        # equality holds iff (op '==' and pol) or (op '!=' and not pol)
+        holds_eq = (sop == "==") == bool(pol)
+        if holds_eq != (want == "=="):
+            return None
+    elif sop != op:
+        return None
+    for x, y in ((a, b), (b, a)):
+        ma, mb = _re.fullmatch(pat_a, x), _re.fullmatch(pat_b, y)
+        if ma and mb:
+            return ma, mb
+    return None
+
+
 class Canon:
     def __init__(self, f):
         self.f = f
@@ -136,6 +183,18 @@ class Canon:
                 return {"k": "lit", "v": "each(%s)" % self.s(rg)}
         if k == "var":
             return {"k": "lit", "v": self.var(n)}
+        # == and != are symmetric: print the operands in a fixed (lexicographic) order, so that `a == b` and `b == a` agree
+        pair = None
+        if k == "bin" and n.get("op") in ("==", "!="):
+            pair = (n["l"], n["r"])
+        elif k == "call" and n.get("op") in ("==", "!="):
+            if n.get("r") is not None and len(n.get("a", [])) == 1:
+                pair = (n["r"], n["a"][0])
+            elif n.get("r") is None and len(n.get("a", [])) == 2:
+                pair = (n["a"][0], n["a"][1])
+        if pair is not None:
+            l_, r_ = estr(self.sub(pair[0])), estr(self.sub(pair[1]))
+            return {"k": "lit", "v": ceq(l_, r_, n["op"])}
         return {kk: (self.sub(v) if isinstance(v, (dict, list)) else v) for kk, v in n.items() if kk != "_at"}
 
     def s(self, n):
